@@ -229,7 +229,13 @@ class ConvexSpheropolygon(Shape2D):
         angle_ranges[angle_ranges < 0] += 2 * np.pi
 
         # compute shape kernel for the new set of vertices
-        kernel = ConvexPolygon(new_verts).distance_to_surface(angles)
+        # All distances are measured from the centroid of the core polygon, which
+        # is the origin of ``verts`` (not the centroid of the offset polygon), and
+        # the arcs below are selected with angles reduced to [0, 2 pi).
+        angles = np.mod(angles, 2 * np.pi)
+        kernel = ConvexPolygon(new_verts)._distance_to_surface_from(
+            angles, np.zeros(3)
+        )
 
         # get the shape kernel for this shape by adjusting indices of shape kernel
         # for the new vertices
